@@ -1,8 +1,8 @@
 use crate::contract::IBC_TIMEOUT;
 use crate::error::{ContractError, ContractResult};
 use crate::helpers::{
-    compute_mint_amount, compute_unbond_amount, derive_intermediate_sender, get_rates,
-    paginate_map, validate_address, validate_addresses,
+    checked_deadline, compute_mint_amount, compute_unbond_amount, derive_intermediate_sender,
+    get_rates, paginate_map, validate_address, validate_addresses,
 };
 use crate::oracle::Oracle;
 use crate::state::{
@@ -393,12 +393,16 @@ pub fn execute_submit_batch(
         }
     );
 
+    // Deadlines are block time plus a configured period: refuse instead of
+    // overflowing when a period is too large for the clock.
+    let next_batch_time = checked_deadline(env.block.time.seconds(), config.batch_period)?;
+    let unbonding_end_time = checked_deadline(
+        env.block.time.seconds(),
+        config.native_chain_config.unbonding_period,
+    )?;
+
     // Create new pending batch
-    let new_pending_batch = Batch::new(
-        batch.id + 1,
-        Uint128::zero(),
-        env.block.time.seconds() + config.batch_period,
-    );
+    let new_pending_batch = Batch::new(batch.id + 1, Uint128::zero(), next_batch_time);
 
     // Save new pending batch
     BATCHES.save(deps.storage, new_pending_batch.id, &new_pending_batch)?;
@@ -437,10 +441,7 @@ pub fn execute_submit_batch(
 
     // Update batch status
     batch.expected_native_unstaked = Some(unbond_amount);
-    batch.update_status(
-        BatchStatus::Submitted,
-        Some(env.block.time.seconds() + config.native_chain_config.unbonding_period),
-    );
+    batch.update_status(BatchStatus::Submitted, Some(unbonding_end_time));
 
     BATCHES.save(deps.storage, batch.id, &batch)?;
 
